@@ -18,7 +18,7 @@ package msqrt
 
 /* -------------------------------------------------------------------------- */
 
-//import   "fmt"
+import   "fmt"
 import   "errors"
 
 import . "github.com/pbenner/autodiff"
@@ -31,6 +31,8 @@ import   "github.com/pbenner/autodiff/algorithm/matrixInverse"
 // Other methods rely on the Schur decomposition, see:
 // Higham, N.~J. (2008). Functions of Matrices: Theory and Computation;
 // Society for Industrial and Applied Mathematics, Philadelphia, PA, USA.
+
+const maxIterations = 1000
 
 func mSqrt(matrix Matrix) (Matrix, error) {
   n, _ := matrix.Dims()
@@ -54,8 +56,13 @@ func mSqrt(matrix Matrix) (Matrix, error) {
   Z1 := Z0.CloneMatrix()
   Z1.MmulS(Z1.MaddM(Z0, t2), c)
   // Mnorm returns the squared Frobenius norm: stop when ||Y0 - Y1||_F <= 1e-8
-  for t0.Mnorm(S.MsubM(Y0, Y1)).GetFloat64() > 1e-8*1e-8 {
+  for iter := 0; t0.Mnorm(S.MsubM(Y0, Y1)).GetFloat64() > 1e-8*1e-8; iter++ {
     verifhook.Tick("msqrt.iter")
+    // the iteration converges quadratically if it converges at all (it
+    // does not e.g. for matrices with negative real eigenvalues)
+    if iter >= maxIterations {
+      return nil, fmt.Errorf("MSqrt(): no convergence within %d iterations", maxIterations)
+    }
     Y0, Y1 = Y1, Y0
     Z0, Z1 = Z1, Z0
     t1, err := matrixInverse.Run(Z0)
